@@ -152,25 +152,31 @@ def _soln(s):
 
 # ---------------------------------------------------------------------------------------------- components
 # name -> (static table names, accepts_rng, runner(par, rng) -> JSON-able output)
+def _obj(st, accepts, build, use):
+    """a component that is an OBJECT holding a generator: build(par, rng) -> object, use(object, par) -> JSON-able output.
+    The plain runner constructs and uses; the lifecycle steps put a copy route (and a re-seeding) between the two."""
+    return (st, accepts, (lambda par, rng: use(build(par, rng), par)), build, use)
+
 def _mate(clsname, nparent, static_extra=()):
-    def run(par, rng):
+    def build(par, rng):
         mod = __import__("pybrops.breed.prot.mate." + clsname, fromlist=[clsname])
         P = getattr(mod, clsname)
+        return P(progeny_counter=par.get("pc", 0), family_counter=0, rng=rng)
+    def use(prot, par):
         pg = _pgmat(par)
         g = _lrng(par.get("dseed", 1) + 5)
         ncross = par.get("ncross", 3)
         xconfig = g.integers(0, pg.ntaxa, size=(ncross, nparent))
-        prot = P(progeny_counter=par.get("pc", 0), family_counter=0, rng=rng)
         out = prot.mate(pg, xconfig, par.get("nmating", 1), par.get("nprogeny", 2), nself=par.get("nself", 0))
         return {"mat": _arr(out.mat), "taxa": _h(numpy.array([str(x) for x in out.taxa])), "grp": _arr(out.taxa_grp), "pc": int(prot.progeny_counter)}
     st = ["breed.prot.mate.%s.%s.mate" % (clsname, clsname), "breed.prot.mate.%s.%s.__init__" % (clsname, clsname)]
-    return (st, True, run)
+    return _obj(st, True, build, use)
 
-def _phenotype(par, rng):
+def _phenotype_build(par, rng):
     from pybrops.breed.prot.pt.G_E_Phenotyping import G_E_Phenotyping
-    pg = _pgmat(par); gm = _gmod(par)
-    pt = G_E_Phenotyping(gm, nenv=par.get("nenv", 2), nrep=par.get("nrep", 2), var_env=0.5, var_rep=0.25, var_err=1.0, rng=rng)
-    df = pt.phenotype(pg)
+    return G_E_Phenotyping(_gmod(par), nenv=par.get("nenv", 2), nrep=par.get("nrep", 2), var_env=0.5, var_rep=0.25, var_err=1.0, rng=rng)
+def _phenotype_use(pt, par):
+    df = pt.phenotype(_pgmat(par))
     return {"vals": _h(df[["tr0", "tr1"]].to_numpy(dtype=float)), "head": _arr(df[["tr0", "tr1"]].to_numpy(dtype=float)[:4]), "n": int(len(df))}
 
 def _sus(par, rng):
@@ -202,7 +208,7 @@ def _outcross(par, rng):
     return {"out": _arr(x)}
 
 def _cfg(clsname, mate=False):
-    def run(par, rng):
+    def build(par, rng):
         mod = __import__("pybrops.breed.prot.sel.cfg." + clsname, fromlist=[clsname])
         C = getattr(mod, clsname)
         pg = _pgmat(par)
@@ -219,12 +225,15 @@ def _cfg(clsname, mate=False):
         if mate:
             g = _lrng(par.get("dseed", 1) + 9)
             kw["xconfig_xmap"] = g.integers(0, pg.ntaxa, size=(6, nparent))
-        c = C(**kw)
-        first = numpy.array(c.xconfig).copy()
-        second = c.sample_xconfig(return_xconfig=True)
-        return {"first": _arr(first), "second": _arr(second)}
+        return C(**kw)                      # the constructor samples a first cross configuration
+    def use(c, par):
+        out = {}
+        if not par.get("_pre"):             # (an object made before the seeding sampled its first configuration from the unseeded stream)
+            out["first"] = _arr(numpy.array(c.xconfig).copy())
+        out["second"] = _arr(c.sample_xconfig(return_xconfig=True))
+        return out
     st = ["breed.prot.sel.cfg.%s.%s.sample_xconfig" % (clsname, clsname), "breed.prot.sel.cfg.%s.%s.__init__" % (clsname, clsname)]
-    return (st, True, run)
+    return _obj(st, True, build, use)
 
 def _spawn(par, rng):
     from pybrops.core.random import prng
@@ -252,23 +261,26 @@ def _embv(par, rng):
     return {"mat": _arr(e.mat)}
 
 def _algo(modname, clsname, kind, nobj, extra=None):
-    def run(par, rng):
+    def build(par, rng):
         mod = __import__("pybrops.opt.algo." + modname, fromlist=[clsname])
         A = getattr(mod, clsname)
         kw = dict(ngen=par.get("ngen", 3), pop_size=par.get("pop", 8), rng=rng)
         kw.update(extra or {})
-        algo = A(**kw)
+        return A(**kw)
+    def use(algo, par):
         return _soln(algo.minimize(_dummy_problem(kind, nobj, par)))
     st = ["opt.algo.%s.%s.minimize" % (modname, clsname), "opt.algo.%s.%s.__init__" % (modname, clsname)]
-    return (st, True, run)
+    return _obj(st, True, build, use)
 
-def _hill(par, rng):
+def _hill_build(par, rng):
     from pybrops.opt.algo.SteepestDescentSubsetHillClimber import SteepestDescentSubsetHillClimber
+    return SteepestDescentSubsetHillClimber(rng=rng)
+def _hill_use(algo, par):
     par = dict(par); par.setdefault("nsup", 10); par.setdefault("ndecn", 3)
     # a flat objective keeps the random starting subset as the answer
     prob = _dummy_problem("subset", 1, par)
     prob.obj_wt = numpy.zeros(1)
-    return _soln(SteepestDescentSubsetHillClimber(rng=rng).minimize(prob))
+    return _soln(algo.minimize(prob))
 
 def _sorthill(par, rng):
     from pybrops.opt.algo.SortingSteepestDescentSubsetHillClimber import SortingSteepestDescentSubsetHillClimber
@@ -281,12 +293,13 @@ def _sorting(par, rng):
     return _soln(SortingSubsetOptimizationAlgorithm().minimize(_dummy_problem("subset", 1, par)))
 
 def _uncon(modname, clsname, nobj):
-    def run(par, rng):
+    def build(par, rng):
         mod = __import__("pybrops.opt.algo." + modname, fromlist=[clsname])
         A = getattr(mod, clsname)
         warnings.filterwarnings("ignore", message="A class named")
         from pybrops.core.random.prng import global_prng
-        algo = A(ngen=par.get("ngen", 3), mu=8, lamb=8, M=1.5, rng=(rng if rng is not None else global_prng))
+        return A(ngen=par.get("ngen", 3), mu=8, lamb=8, M=1.5, rng=(rng if rng is not None else global_prng))
+    def use(algo, par):
         w = numpy.arange(12) * 37 % 101 / 8.0
         if nobj == 1:
             f = lambda x: float(w[numpy.asarray(x, dtype=int)].sum())
@@ -296,30 +309,33 @@ def _uncon(modname, clsname, nobj):
         front, decn, misc = algo.optimize(f, 3, numpy.arange(12), numpy.array([1.0, 1.0]))
         return {"decn": _h(numpy.asarray(decn)), "obj": _h(numpy.asarray(front))}
     st = ["opt.algo.%s.%s.optimize" % (modname, clsname), "opt.algo.%s.%s.__init__" % (modname, clsname)]
-    return (st, True, run)
+    return _obj(st, True, build, use)
 
-def _unconhill(par, rng):
+def _unconhill_build(par, rng):
     from pybrops.opt.algo.UnconstrainedSteepestAscentSetHillClimber import UnconstrainedSteepestAscentSetHillClimber
     from pybrops.core.random.prng import global_prng
-    algo = UnconstrainedSteepestAscentSetHillClimber(rng=(rng if rng is not None else global_prng))
+    return UnconstrainedSteepestAscentSetHillClimber(rng=(rng if rng is not None else global_prng))
+def _unconhill_use(algo, par):
     score, soln, misc = algo.optimize(lambda x: 0.0, 3, numpy.arange(9), 1.0)
     return {"decn": _arr(soln)}
 
 def _selprot(kind, nobj=1, default_algo=True):
     """a selection protocol handed its own generator: the configuration is sampled from it, and so do the default optimisers
     (kind subset, default_algo False: a deterministic optimiser, so that the only draws are those of the configuration)"""
-    def run(par, rng):
+    def build(par, rng):
         import pybrops.breed.prot.sel.EstimatedBreedingValueSelection as E
         from pybrops.opt.algo.SortingSubsetOptimizationAlgorithm import SortingSubsetOptimizationAlgorithm
-        pg = _pgmat(par); gm = _gmod(par, nobj)
-        gm.beta = numpy.full((1, nobj), 64.0)       # positive breeding values: the optimum never is the empty selection
-        bv = gm.gebv(pg)
         P = getattr(E, "EstimatedBreedingValue%sSelection" % kind.capitalize())
         kw = dict(ntrait=nobj, unscale=True, ncross=par.get("ncross", 2), nparent=2, nmating=1, nprogeny=2, nobj=nobj, ndset_wt=1.0, rng=rng)
         if not default_algo: kw["soalgo"] = SortingSubsetOptimizationAlgorithm()
         prot = P(**kw)
         if default_algo:           # the default optimisers (built by the protocol), shortened
             for a in (prot.soalgo, prot.moalgo): a.ngen = par.get("ngen", 3); a.pop_size = par.get("pop", 8)
+        return prot
+    def use(prot, par):
+        pg = _pgmat(par); gm = _gmod(par, nobj)
+        gm.beta = numpy.full((1, nobj), 64.0)       # positive breeding values: the optimum never is the empty selection
+        bv = gm.gebv(pg)
         cfg = prot.select(pgmat=pg, gmat=None, ptdf=None, bvmat=bv, gpmod=None, t_cur=0, t_max=1)
         out = {"xconfig": _arr(cfg.xconfig)}
         if par.get("resample"): out["second"] = _arr(cfg.sample_xconfig(return_xconfig=True))
@@ -328,7 +344,7 @@ def _selprot(kind, nobj=1, default_algo=True):
     st = ["breed.prot.sel.%sSelectionProtocol.%sSelectionProtocol.select" % (K, K)]
     if default_algo:
         st += ["breed.prot.sel.%sSelectionProtocol.%sSelectionProtocol.soalgo.setter" % (K, K), "breed.prot.sel.%sSelectionProtocol.%sSelectionProtocol.moalgo.setter" % (K, K)]
-    return (st, True, run)
+    return _obj(st, True, build, use)
 
 def _mateselprot(kind, nobj=1):
     """the (semi-abstract) mate selection protocols: select() with the optimisation stubbed out, so that the configuration
@@ -357,17 +373,17 @@ def _mateselprot(kind, nobj=1):
     return (["breed.prot.sel.%sMateSelectionProtocol.%sMateSelectionProtocol.select" % (K, K)], True, run)
 
 def _randsel(kind):
-    def run(par, rng):
+    def build(par, rng):
         import pybrops.breed.prot.sel.RandomSelection as R
         from pybrops.opt.algo.SortingSubsetOptimizationAlgorithm import SortingSubsetOptimizationAlgorithm
-        pg = _pgmat(par)
         P = getattr(R, "Random%sSelection" % kind.capitalize())
         kw = dict(ntrait=par.get("ntrait", 1), ncross=2, nparent=2, nmating=1, nprogeny=2, nobj=par.get("ntrait", 1), ndset_wt=1.0, rng=rng)
         if kind == "subset": kw["soalgo"] = SortingSubsetOptimizationAlgorithm()
-        prot = P(**kw)
-        prob = prot.problem(pgmat=pg, gmat=None, ptdf=None, bvmat=None, gpmod=None, t_cur=0, t_max=1)
+        return P(**kw)
+    def use(prot, par):
+        prob = prot.problem(pgmat=_pgmat(par), gmat=None, ptdf=None, bvmat=None, gpmod=None, t_cur=0, t_max=1)
         return {"rbv": _arr(prob.rbv)}
-    return (["breed.prot.sel.RandomSelection.Random%sSelection.problem" % kind.capitalize()], True, run)
+    return _obj(["breed.prot.sel.RandomSelection.Random%sSelection.problem" % kind.capitalize()], True, build, use)
 
 def _g1norm(par, rng):
     """legacy protocol: hill climber (draws from the protocol's generator), then the selected parents are shuffled"""
@@ -400,7 +416,8 @@ COMPONENTS = {
     "ThreeWayCross": _mate("ThreeWayCross", 3), "ThreeWayDHCross": _mate("ThreeWayDHCross", 3),
     "FourWayCross": _mate("FourWayCross", 4), "FourWayDHCross": _mate("FourWayDHCross", 4),
     "SelfCross": _mate("SelfCross", 1),
-    "G_E_Phenotyping": (["breed.prot.pt.G_E_Phenotyping.G_E_Phenotyping.phenotype", "breed.prot.pt.G_E_Phenotyping.G_E_Phenotyping.__init__"], True, _phenotype),
+    "G_E_Phenotyping": _obj(["breed.prot.pt.G_E_Phenotyping.G_E_Phenotyping.phenotype", "breed.prot.pt.G_E_Phenotyping.G_E_Phenotyping.__init__"], True,
+                            _phenotype_build, _phenotype_use),
     "sus": (["core.random.sampling.stochastic_universal_sampling"], True, _sus),
     "sus2d": (["core.random.sampling.stochastic_universal_sampling"], True, _sus2),
     "tiled_choice_norepl": (["core.random.sampling.tiled_choice"], True, _tiled(False)),
@@ -414,12 +431,13 @@ COMPONENTS = {
     "spawn": (["core.random.prng.spawn"], False, _spawn),
     "apply_jitter": (["popgen.cmat.DenseCoancestryMatrix.DenseCoancestryMatrix.apply_jitter"], False, _jitter),
     "EMBV": (["model.embvmat.DenseExpectedMaximumBreedingValueMatrix.DenseExpectedMaximumBreedingValueMatrix.from_gmod"], False, _embv),
-    "HillClimber": (["opt.algo.SteepestDescentSubsetHillClimber.SteepestDescentSubsetHillClimber.minimize",
-                     "opt.algo.SteepestDescentSubsetHillClimber.SteepestDescentSubsetHillClimber.__init__"], True, _hill),
+    "HillClimber": _obj(["opt.algo.SteepestDescentSubsetHillClimber.SteepestDescentSubsetHillClimber.minimize",
+                         "opt.algo.SteepestDescentSubsetHillClimber.SteepestDescentSubsetHillClimber.__init__"], True, _hill_build, _hill_use),
     "SortingHillClimber": (["opt.algo.SortingSteepestDescentSubsetHillClimber.SortingSteepestDescentSubsetHillClimber.minimize"], False, _sorthill),
     "SortingAlgo": (["opt.algo.SortingSubsetOptimizationAlgorithm.SortingSubsetOptimizationAlgorithm.minimize"], False, _sorting),
-    "UnconHill": (["opt.algo.UnconstrainedSteepestAscentSetHillClimber.UnconstrainedSteepestAscentSetHillClimber.optimize",
-                   "opt.algo.UnconstrainedSteepestAscentSetHillClimber.UnconstrainedSteepestAscentSetHillClimber.__init__"], True, _unconhill),
+    "UnconHill": _obj(["opt.algo.UnconstrainedSteepestAscentSetHillClimber.UnconstrainedSteepestAscentSetHillClimber.optimize",
+                       "opt.algo.UnconstrainedSteepestAscentSetHillClimber.UnconstrainedSteepestAscentSetHillClimber.__init__"], True,
+                      _unconhill_build, _unconhill_use),
     "SubsetGA": _algo("SubsetGeneticAlgorithm", "SubsetGeneticAlgorithm", "subset", 1),
     "BinaryGA": _algo("BinaryGeneticAlgorithm", "BinaryGeneticAlgorithm", "binary", 1),
     "IntegerGA": _algo("IntegerGeneticAlgorithm", "IntegerGeneticAlgorithm", "integer", 1),
@@ -449,6 +467,52 @@ COMPONENTS = {
     "G1NormSel": (["breed.prot.sel.UnconstrainedGeneralized1NormGenomicSelection.Generalized1NormGenomicSelection.select"], True, _g1norm),
     "OCSProblem": (["breed.prot.sel.OptimalContributionSelection.OptimalContributionSubsetSelection.problem"], True, _ocs_problem),
 }
+
+# ---------------------------------------------------------------------------------------------- object lifecycle (copies)
+# Stochastic components are objects holding a generator.  A step of a program may obtain its object through a copy route
+# ("life") instead of straight from the constructor, and may obtain it BEFORE the seeding / before the streams are perturbed
+# ("pre": the object, and the copy, belong to the prior history).  Required: the copy behaves as its source - on the global
+# stream it stays on the global stream (same function of the seed), with an explicit generator it consumes that generator.
+OBJ_COMPS = [c for c, v in COMPONENTS.items() if len(v) == 5]
+ROUTES = {"copy": copy.copy, "deepcopy": copy.deepcopy, "mcopy": lambda o: o.copy(), "mdeepcopy": lambda o: o.deepcopy(),
+          "deepcopy_memo": lambda o: copy.deepcopy(o, {}), "mdeepcopy_memo": lambda o: o.deepcopy({})}
+LIFE = {"ctor": [], "copy": ["copy"], "deepcopy": ["deepcopy"], "mcopy": ["mcopy"], "mdeepcopy": ["mdeepcopy"], "deepcopy_memo": ["deepcopy_memo"],
+        "mdeepcopy_memo": ["mdeepcopy_memo"], "deepcopy+copy": ["deepcopy", "copy"], "mcopy+mdeepcopy": ["mcopy", "mdeepcopy"],
+        "copy+copy": ["copy", "copy"]}
+# classes that define copy routes of their own (the library says what a copy is): component -> (class path, routes, table names).
+# Verified by introspection in audit_entry_points(): a stochastic class that gains / loses a copy method must be reclassified here.
+OWN_COPY = {"G_E_Phenotyping": ("pybrops.breed.prot.pt.G_E_Phenotyping.G_E_Phenotyping", ("__copy__", "__deepcopy__", "copy", "deepcopy"),
+                                ["breed.prot.pt.G_E_Phenotyping.G_E_Phenotyping.__copy__", "breed.prot.pt.G_E_Phenotyping.G_E_Phenotyping.__deepcopy__"])}
+LIFE_OWN = [k for k in LIFE if k != "ctor"]                      # every route
+LIFE_DEFAULT_OK = ["copy", "copy+copy"]                          # python's default shallow copy shares the attributes: must behave as the source
+LIFE_DEFAULT_DEEP = ["deepcopy", "deepcopy_memo", "deepcopy+copy"]     # python's default deep copy duplicates the generator: known finding
+
+def _life_kind(step):
+    """None (constructor) | 'own' (the class defines the route) | 'shallow' | 'deep' (python defaults)"""
+    life = step.get("life", "ctor")
+    if life == "ctor": return None
+    if step["comp"] in OWN_COPY: return "own"
+    return "deep" if any(r.startswith("deepcopy") for r in LIFE[life]) else "shallow"
+
+def _obtain(step, rng):
+    comp = step["comp"]
+    obj = COMPONENTS[comp][3](step.get("par", {}), rng)
+    for r in LIFE[step.get("life", "ctor")]: obj = ROUTES[r](obj)
+    return obj
+
+def _obtain_pre(prog, rng):
+    """objects (and copies) that exist before the seeding / the perturbation of the streams: index of the step -> object"""
+    return {i: _obtain(s, rng) for i, s in enumerate(prog) if s.get("pre")}
+
+def _has_life(prog):
+    return any(s.get("life", "ctor") != "ctor" for s in prog)
+
+def _ref_prog(prog):
+    """the same program with every object straight from its constructor (made at the same time as in the program)"""
+    out = []
+    for s in prog:
+        s = dict(s); s.pop("life", None); out.append(s)
+    return out
 
 # ---------------------------------------------------------------------------------------------- driver
 def _gstate():
@@ -481,12 +545,19 @@ def _history(h):
         elif k == "npseed": numpy.random.seed(v)
         elif k == "pyseed": random.seed(v)
         elif k == "comp": COMPONENTS[v][2](op[2] if len(op) > 2 else {}, None)
+        elif k == "life": _run_prog([{"comp": v, "par": op[2], "life": op[3]}], None)       # a component obtained through a copy route, used, dropped
         else: raise ValueError(op)
 
-def _run_prog(prog, rng):
+def _run_prog(prog, rng, pre=None):
     outs = []
-    for step in prog:
-        outs.append(COMPONENTS[step["comp"]][2](step.get("par", {}), rng))
+    for i, step in enumerate(prog):
+        par = step.get("par", {})
+        if "life" in step or step.get("pre"):
+            obj = pre[i] if (pre is not None and i in pre) else _obtain(step, rng)
+            if step.get("pre"): par = dict(par, _pre=True)
+            outs.append(COMPONENTS[step["comp"]][4](obj, par))
+        else:
+            outs.append(COMPONENTS[step["comp"]][2](par, rng))
     return outs
 
 def run_impl(case):
@@ -514,11 +585,14 @@ def run_impl(case):
         return out
     if kind == "repro":
         res = {}
-        for tag, h in (("A", case["h1"]), ("B", case["h2"])):
+        runs = [("A", case["h1"], case["prog"]), ("B", case["h2"], case["prog"])]
+        if _has_life(case["prog"]): runs.append(("R", [], _ref_prog(case["prog"])))       # reference: no copies anywhere
+        for tag, h, prog in runs:
             _history(h)
+            pre = _obtain_pre(prog, None)            # objects and copies made BEFORE the seeding
             prng.seed(case["seed"])
             g0 = _gstate()
-            outs = _run_prog(case["prog"], None)
+            outs = _run_prog(prog, None, pre)
             g1 = _gstate()
             res[tag] = {"outs": outs, "py_end": g1[0], "np_end": g1[1], "py_moved": g0[0] != g1[0], "np_moved": g0[1] != g1[1]}
         return res
@@ -527,14 +601,23 @@ def run_impl(case):
         rng = _mkrng(case["rngkind"], case["rseed"])
         for _ in range(case.get("skip", 0)): rng.random()
         g0 = _gstate(); r0 = _rstate(rng)
-        out1 = _run_prog(case["prog"], rng)
+        pre = _obtain_pre(case["prog"], rng)
+        out1 = _run_prog(case["prog"], rng, pre)
         g1 = _gstate(); r1 = _rstate(rng)
         _history(case.get("h2", []))
         rng2 = _mkrng(case["rngkind"], case["rseed"])
         for _ in range(case.get("skip", 0)): rng2.random()
-        out2 = _run_prog(case["prog"], rng2)
+        pre2 = _obtain_pre(case["prog"], rng2)
+        out2 = _run_prog(case["prog"], rng2, pre2)
         r2 = _rstate(rng2)
-        return {"py_moved": g0[0] != g1[0], "np_moved": g0[1] != g1[1], "ex_moved": r0 != r1, "out1": out1, "out2": out2, "r1": r1, "r2": r2}
+        res = {"py_moved": g0[0] != g1[0], "np_moved": g0[1] != g1[1], "ex_moved": r0 != r1, "out1": out1, "out2": out2, "r1": r1, "r2": r2}
+        if _has_life(case["prog"]):                  # reference: the same program without copies, from an equal generator state
+            rng3 = _mkrng(case["rngkind"], case["rseed"])
+            for _ in range(case.get("skip", 0)): rng3.random()
+            ref = _ref_prog(case["prog"])
+            pre3 = _obtain_pre(ref, rng3)
+            res["out3"] = _run_prog(ref, rng3, pre3); res["r3"] = _rstate(rng3)
+        return res
     raise ValueError(kind)
 
 # ---------------------------------------------------------------------------------------------- generator
@@ -546,14 +629,18 @@ CLEAN_RNG = ["TwoWayCross", "TwoWayDHCross", "ThreeWayCross", "ThreeWayDHCross",
             + list(GA_SUBSET_OPS) + list(SELPROT_COMPS) + list(HELPER_COMPS) + ["UnconSetGA"]          # the repaired components are ordinary cases now
 GLOBAL_ONLY = ["spawn", "apply_jitter", "EMBV", "SortingHillClimber", "SortingAlgo"]
 FINDING_COMPS = list(GA_MEMETIC) + list(DEAP_COMPS) + list(NO_RNG_HELPER_COMPS)
+LIFE_COMPS = [c for c in CLEAN_RNG if c in OBJ_COMPS]              # object components that take part in the copy lifecycle
 
 def _rand_hist(rng, heavy=False):
     h = []
     for _ in range(rng.randint(0, 4)):
-        k = rng.choice(["py", "pyg", "np", "npn", "seed", "npseed", "pyseed", "comp"])
+        k = rng.choice(["py", "pyg", "np", "npn", "seed", "npseed", "pyseed", "comp", "life"])
         if k in ("py", "np"): h.append([k, rng.randint(1, 700 if heavy else 40)])
         elif k in ("pyg", "npn"): h.append([k, rng.choice([1, 3, 5])])
         elif k in ("seed", "npseed", "pyseed"): h.append([k, rng.randint(0, 2 ** 32 - 1)])
+        elif k == "life":
+            c = rng.choice(LIFE_COMPS)
+            h.append([k, c, {}, rng.choice(LIFE_OWN if c in OWN_COPY else LIFE_DEFAULT_OK)])
         else: h.append([k, rng.choice(CLEAN_RNG + GLOBAL_ONLY)])
     return h
 
@@ -619,6 +706,34 @@ def gen_cases(rng, tier):
         prog = [{"comp": c, "par": _rand_par(rng, c)} for c in (rng.choice(CLEAN_RNG) for _ in range(k))]
         cases.append({"kind": "isolated", "rngkind": rng.choice(["Generator", "RandomState", "MT"]), "rseed": rng.getrandbits(31), "skip": 0,
                       "h1": _rand_hist(rng), "h2": [["py", 3], ["np", 5]] + _rand_hist(rng), "prog": prog})
+    # --- object lifecycle: the component is obtained through a copy route, possibly BEFORE the seeding / perturbation (pre)
+    def life_step(comp, life, pre):
+        return {"comp": comp, "par": _rand_par(rng, comp), "life": life, "pre": bool(pre)}
+    def repro_case(prog, heavy=True):
+        return {"kind": "repro", "seed": rng.choice(SEED_EDGE[:6] + [rng.getrandbits(40)]), "h1": _rand_hist(rng), "h2": [["np", rng.randint(1, 9)]] + _rand_hist(rng, heavy), "prog": prog}
+    def iso_case(prog):
+        return {"kind": "isolated", "rngkind": rng.choice(["Generator", "RandomState", "MT"]), "rseed": rng.getrandbits(31), "skip": rng.choice([0, 0, 3]),
+                "h1": _rand_hist(rng), "h2": [["py", rng.randint(1, 30)], ["np", rng.randint(1, 30)]] + _rand_hist(rng), "prog": prog}
+    for comp in LIFE_COMPS:
+        lives = LIFE_OWN if comp in OWN_COPY else LIFE_DEFAULT_OK
+        for rep in range((1 if quick else 3) if comp not in OWN_COPY else 1):
+            for life in (lives if comp in OWN_COPY else [rng.choice(lives)]):
+                for pre in ((True, False) if comp in OWN_COPY else (rng.choice([True, False]),)):
+                    cases.append(repro_case([life_step(comp, life, pre)]))
+                    cases.append(iso_case([life_step(comp, life, pre)]))
+    for _ in range(16 if quick else 150):          # programs: copies next to their sources and to other components, copies of every own route
+        k = rng.choice([2, 3])
+        prog = []
+        for _ in range(k):
+            c = rng.choice(list(OWN_COPY) * 3 + LIFE_COMPS)
+            if rng.random() < 0.75: prog.append(life_step(c, rng.choice(LIFE_OWN if c in OWN_COPY else LIFE_DEFAULT_OK), rng.random() < 0.5))
+            else: prog.append({"comp": c, "par": _rand_par(rng, c)})
+        cases.append(repro_case(prog) if rng.random() < 0.6 else iso_case(prog))
+    # python's default deep copy of a component without a __deepcopy__ of its own duplicates the generator (known finding)
+    for _ in range(6 if quick else 40):
+        c = rng.choice([x for x in LIFE_COMPS if x not in OWN_COPY and x not in GA_COMPS and not x.startswith("SelProt")])
+        prog = [life_step(c, rng.choice(LIFE_DEFAULT_DEEP), True)]
+        cases.append(repro_case(prog, False)); cases.append(iso_case([life_step(c, rng.choice(LIFE_DEFAULT_DEEP), rng.random() < 0.5)]))
     rng.shuffle(cases)          # spread the heavy seed-model cases over the shards
     return cases
 
@@ -626,14 +741,18 @@ def gen_cases(rng, tier):
 def _static_names(prog):
     names = []
     for st in prog:
-        for n in COMPONENTS[st["comp"]][0]:
+        extra = OWN_COPY[st["comp"]][2] if (st.get("life", "ctor") != "ctor" and st["comp"] in OWN_COPY) else []
+        for n in list(COMPONENTS[st["comp"]][0]) + list(extra):
             if n not in names: names.append(n)
     return names
 
 def all_static_names():
     out = []
-    for st, _, _ in COMPONENTS.values():
-        for n in st:
+    for v in COMPONENTS.values():
+        for n in v[0]:
+            if n not in out: out.append(n)
+    for v in OWN_COPY.values():
+        for n in v[2]:
             if n not in out: out.append(n)
     return out
 
@@ -658,8 +777,12 @@ def emit_case(case, out):
     if k == "repro":
         A, B = out["A"], out["B"]
         same = A["outs"] == B["outs"] and A["py_end"] == B["py_end"] and A["np_end"] == B["np_end"]
+        if "R" in out:            # a program with copies must be the same function of the seed as the program without
+            R = out["R"]
+            same = same and A["outs"] == R["outs"] and A["py_end"] == R["py_end"] and A["np_end"] == R["np_end"]
         return "(FP.obs_agree false %s (FP.mkobs %s %s false %s))" % (names, E.b(A["py_moved"] or B["py_moved"]), E.b(A["np_moved"] or B["np_moved"]), E.b(same))
     same = out["out1"] == out["out2"] and out["r1"] == out["r2"]
+    if "out3" in out: same = same and out["out1"] == out["out3"] and out["r1"] == out["r3"]
     return "(FP.obs_agree true %s (FP.mkobs %s %s %s %s))" % (names, E.b(out["py_moved"]), E.b(out["np_moved"]), E.b(out["ex_moved"]), E.b(same))
 
 # ---------------------------------------------------------------------------------------------- independent predicate
@@ -696,6 +819,15 @@ def pred(case, out):
         if not bad:
             if A["py_end"] != B["py_end"]: bad.append("python stream differs at the end of the seeded program")
             if A["np_end"] != B["np_end"]: bad.append("numpy stream differs at the end of the seeded program")
+        if "R" in out:
+            R = out["R"]
+            for i, (a, b) in enumerate(zip(A["outs"], R["outs"])):
+                if a != b:
+                    bad.append("step %d (%s): a copy (%s) does not behave as its source: output differs from the same seeded program without copies"
+                               % (i, case["prog"][i]["comp"], case["prog"][i].get("life", "ctor"))); break
+            else:
+                if A["np_end"] != R["np_end"] or A["py_end"] != R["py_end"]:
+                    bad.append("a copy does not behave as its source: the global streams end elsewhere than after the same seeded program without copies")
         return bad
     if out["py_moved"]: bad.append("explicit rng: python's global stream was advanced")
     if out["np_moved"]: bad.append("explicit rng: numpy's global stream was advanced")
@@ -703,6 +835,14 @@ def pred(case, out):
         if a != b:
             bad.append("step %d (%s): result is not a function of the supplied generator's state" % (i, case["prog"][i]["comp"])); break
     if not bad and out["r1"] != out["r2"]: bad.append("supplied generator ends in different states")
+    if "out3" in out:
+        for i, (a, b) in enumerate(zip(out["out1"], out["out3"])):
+            if a != b:
+                bad.append("step %d (%s): a copy (%s) does not behave as its source: output differs from the same program without copies"
+                           % (i, case["prog"][i]["comp"], case["prog"][i].get("life", "ctor"))); break
+        else:
+            if out["r1"] != out["r3"]:
+                bad.append("a copy does not consume the supplied generator as its source does (generator ends elsewhere than after the same program without copies)")
     return bad
 
 def classify(case, out, clauses):
@@ -712,7 +852,17 @@ def classify(case, out, clauses):
     def first(pool):
         ix = [i for i, c in enumerate(comps) if c in pool]
         return ix[0] if ix else None
-    steps = [int(c.split()[1]) for c in clauses if c.startswith("step ")]
+    steps = [int(c.split()[1].rstrip(":")) for c in clauses if c.startswith("step ")]
+    # python's default deep copy (a class WITHOUT copy routes of its own) duplicates the generator the component holds
+    deep = [i for i, s in enumerate(case["prog"]) if _life_kind(s) == "deep"]
+    if deep:
+        if not clauses or any(c in GA_MEMETIC + DEAP_COMPS + NO_RNG_HELPER_COMPS for c in comps): return None
+        if any("global stream was advanced" in c or "not a function of the supplied generator" in c for c in clauses): return None
+        if steps and min(steps) < deep[0]: return None
+        marks = ("does not behave as its source", "does not consume the supplied generator", "outputs differ after the same seed",
+                 "stream differs at the end of the seeded program")
+        if all(any(m in c for m in marks) for c in clauses): return "C08-default-deepcopy-snapshots-rng"
+        return None
     if case["kind"] == "repro":
         return None                     # after seeding everything must be reproducible (C08-ga-os-entropy is fixed)
     # isolated: exactly one kind of culprit in the program
@@ -745,6 +895,8 @@ def describe(case, out):
     else:
         d["len"] = len(case["prog"]); d["first_comp"] = case["prog"][0]["comp"]
         if case["kind"] == "isolated": d["rngkind"] = case["rngkind"]
+        lives = sorted({s.get("life", "ctor") for s in case["prog"]})
+        d["life"] = "+".join(lives) if lives != ["ctor"] else "ctor"; d["pre"] = any(s.get("pre") for s in case["prog"])
     return d
 
 def shrink(case, fails):
@@ -762,6 +914,9 @@ def shrink(case, fails):
         t = copy.deepcopy(cur)
         for s in t["prog"]: s["par"] = {}
         if fails(t): cur = t
+        for i in range(len(cur["prog"])):           # drop copy routes that are not needed for the failure
+            t = copy.deepcopy(cur); t["prog"][i].pop("life", None); t["prog"][i].pop("pre", None)
+            if fails(t): cur = t
     elif cur.get("kind") == "seedmodel":
         for key, val in (("h", []), ("reqs", [1]), ("sbits", None)):
             t = copy.deepcopy(cur); t[key] = val
